@@ -25,7 +25,12 @@ pub struct C09 {
     pub nested: usize,
     /// explorer time grid (ms): 10, or 1010 for the seconds-range configuration
     pub grid: u64,
+    /// force_open() may be called this many times during the exploration (a breaker that is
+    /// tripped by hand or by a health trigger while trial calls are still running)
+    pub max_force: usize,
 }
+
+const FORCE_OPEN: u8 = 200;
 
 pub struct X {
     nest: Option<Arc<Nest>>,
@@ -63,7 +68,7 @@ impl Scenario for C09 {
         "C09"
     }
     fn label(&self) -> String {
-        format!("c09 {} callers={} prepared={}{}", self.cfg.label(), self.callers, self.prepared, if self.straggler { " straggler-from-earlier-half-open-period" } else if self.nested > 0 { " nested-polls" } else { "" })
+        format!("c09 {} callers={} prepared={}{}", self.cfg.label(), self.callers, self.prepared, if self.max_force > 0 { " force_open-during-exploration" } else if self.straggler { " straggler-from-earlier-half-open-period" } else if self.nested > 0 { " nested-polls" } else { "" })
     }
     fn callers(&self) -> usize {
         self.callers
@@ -103,12 +108,20 @@ impl Scenario for C09 {
     }
     fn ctl_actions(&self, w: &World, x: &X) -> Vec<u8> {
         // arm caller j: the next listener firing inside someone else's critical section polls it
-        match &x.nest {
+        let mut v: Vec<u8> = match &x.nest {
             Some(n) if n.armed().is_none() => (0..w.callers.len().min(self.callers)).filter(|&j| w.pollable(j)).map(|j| j as u8).collect(),
             _ => vec![],
+        };
+        if self.max_force > 0 {
+            v.push(FORCE_OPEN);
         }
+        v
     }
-    fn apply_ctl(&self, _w: &mut World, x: &mut X, ctl: u8) {
+    fn apply_ctl(&self, w: &mut World, x: &mut X, ctl: u8) {
+        if ctl == FORCE_OPEN {
+            w.block_on(x.svc.force_open());
+            return;
+        }
         if let Some(n) = &x.nest {
             n.arm(ctl as usize);
         }
@@ -121,7 +134,8 @@ impl Scenario for C09 {
         match a {
             Action::Tick => c.ticks < self.max_ticks,
             Action::Drop(_) => c.drops < self.max_drops,
-            Action::Ctl(_) => c.ctls < self.nested,
+            Action::Ctl(FORCE_OPEN) => h.iter().filter(|a| matches!(a, Action::Ctl(FORCE_OPEN))).count() < self.max_force,
+            Action::Ctl(_) => h.iter().filter(|a| matches!(a, Action::Ctl(c) if *c != FORCE_OPEN)).count() < self.nested,
             _ => true,
         }
     }
